@@ -103,3 +103,33 @@ Definition c22_chk (avail : bool) (ordered : list bool) (h : list (list (list va
                forallb (fun r => outs_eqb ordered (fst (snd r0)) (fst (snd r)) &&
                                  nlist_eqb (snd (snd r0)) (snd (snd r))) rest
            end).
+
+(* ------------------------------------------------------------------ C26 *)
+
+(* iterate to the fixpoint: items, then what the loop-delayed cycle feeds back, ... until empty *)
+Fixpoint closure_fix (fuel : nat) (f : val -> option val) (items : list val) : list val :=
+  match fuel with
+  | O => []
+  | S n => match items with
+           | [] => []
+           | _ => items ++ closure_fix n f (filter_map_l f items)
+           end
+  end.
+
+(* expected sink contents from a per-tick specification of the loop program *)
+Definition expect_outs (e : list (list val) -> list (list (list val))) (h : list (list (list val)))
+           (nsinks : nat) : list (list val) :=
+  let per_tick := e (map (port 0) h) in
+  map (fun j => concat (map (fun t => tag t (nth j (nth t per_tick []) [])) (seq 0 (length h))))
+      (seq 0 nsinks).
+
+Definition c26_chk (avail : bool) (p : prog) (e : option (list (list val) -> list (list (list val))))
+           (ordered : list bool) (h : list (list (list val)))
+           (impl_outs : list (list val)) (impl_obs : list N) : N :=
+  verdict (run_agree avail p (map ext_of h) ordered impl_outs impl_obs)
+          (match e with
+           | None => true
+           | Some e =>
+               (if avail then forallb (N.eqb 1) impl_obs else count_from 1 impl_obs) &&
+               outs_eqb ordered impl_outs (expect_outs e h (length impl_outs))
+           end).
